@@ -2,6 +2,7 @@ package scandfa
 
 import (
 	"fmt"
+	"os"
 	"sort"
 	"strconv"
 	"strings"
@@ -607,23 +608,41 @@ func (a *Analysis) machineOfState(s string) string {
 }
 
 // Progress: the graph of token steps that may consume nothing must be acyclic.
+//
+// A token step is one execution of an action block that ends a match. Its
+// length is te - ts after the action (what the caller receives or what is
+// recorded). Steps of length >= 1 advance the input. The others are edges
+// between machines; two refinements remove edges that cannot repeat:
+//   - ungetStr(s) only gives bytes back when the match ends with s: the
+//     shortest such match that reaches the block bounds the length from below;
+//   - a step that gives its whole match back to another machine is followed by
+//     a step of that machine on exactly those bytes: if every such step
+//     consumes at least one byte, the edge cannot lie on a cycle of empty steps.
 func (a *Analysis) Progress() *report.RuleResult {
 	res := report.NewResult("progress")
 	var steps []zeroStep
-	// states that can be pushed (return targets of fcall)
-	retTargets := map[string]bool{}
+	// callers[Y] = machines that fcall machine Y (where a fret in Y returns to)
+	callers := map[string]map[string]bool{}
+	addCall := func(from, to string) {
+		if from == "" || to == "" {
+			return
+		}
+		if callers[to] == nil {
+			callers[to] = map[string]bool{}
+		}
+		callers[to][from] = true
+	}
 	for _, mn := range machineNames(a) {
 		for _, l := range a.actionBlocks(mn) {
 			for _, o := range a.Outcomes(l) {
 				for _, e := range o.Events {
 					if e.Kind == "call" {
-						if to := a.machineOfState(strings.SplitN(e.ID, "->", 2)[0]); to != "" {
-							retTargets[to] = true
-						}
+						parts := strings.SplitN(e.ID, "->", 2)
+						addCall(a.machineOfState(parts[0]), a.machineOfState(parts[1]))
 					}
 					if e.Kind == "push" {
-						if to := a.machineOfState(e.ID); to != "" {
-							retTargets[to] = true
+						if n, ok := stateOfLabel(o.Exit); ok {
+							addCall(a.machineOfState(e.ID), a.M.EntryOf[n])
 						}
 					}
 				}
@@ -652,11 +671,28 @@ func (a *Analysis) Progress() *report.RuleResult {
 				if ef.Def && ef.Lo >= 1 {
 					continue // at least one byte is consumed
 				}
+				note := ""
+				if us := o.Has("ungetstr"); us != nil {
+					L := a.minMatchEndingWith(mn, l, us.ID, o)
+					if os.Getenv("VERIF_DUMP") != "" {
+						fmt.Printf("    suffix: %s %s %q shortest match %d\n", mn, l, us.ID, L)
+					}
+					if L == -1 {
+						res.Count("refined-by-suffix", 1)
+						continue // no match that reaches this block ends with the string: nothing is given back here
+					}
+					if L >= 0 && L-len(us.ID) >= 1 {
+						res.Count("refined-by-suffix", 1)
+						continue // the shortest match ending with the string leaves at least one byte
+					}
+				}
 				// where does the scanner go?
 				var tos []string
+				isRet := false
 				switch {
 				case o.Has("ret") != nil || o.Has("pop-top") != nil:
-					for t := range retTargets {
+					isRet = true
+					for t := range callers[mn] {
 						tos = append(tos, t)
 					}
 				case o.Has("call") != nil:
@@ -670,30 +706,53 @@ func (a *Analysis) Progress() *report.RuleResult {
 							}
 						}
 					}
-					if strings.HasPrefix(o.Exit, "st") && !strings.HasPrefix(o.Exit, "st_") && o.Exit != "st0" {
-						if m2 := a.machineOfState(strings.TrimPrefix(o.Exit, "st")); m2 != "" {
+					if n, ok := stateOfLabel(o.Exit); ok && n != 0 {
+						if m2 := a.M.EntryOf[n]; m2 != "" {
 							to = m2
 						}
 					}
 					tos = append(tos, to)
 				}
 				sort.Strings(tos)
+				// whole match handed to another machine: what does that machine do with it?
+				before := Lin{TE: 1}.rel(de2) // length of the match before the action
+				if o.TE.P == 1 {
+					before = o.TE.add(Lin{K: ungot(o)}).rel(de2)
+				}
 				for _, to := range tos {
 					if to == "" {
 						continue
 					}
-					steps = append(steps, zeroStep{mn, to, key, fmt.Sprintf("length %s, path [%s]", ef, strings.Join(o.Conds, " && ")), a.M.Prog.Pos(a.M.Blocks[l].Pos)})
+					if !isRet && to != mn && ef.Def && ef.Lo == 0 && ef.Hi == 0 && before.Def && before.Lo == before.Hi && before.Lo >= 1 && before.Lo <= 3 {
+						src := l
+						for _, c := range o.Conds {
+							if strings.HasPrefix(c, "lex.act==") {
+								if mb := a.markBlock(mn, strings.TrimPrefix(c, "lex.act==")); mb != "" {
+									src = mb
+								}
+							}
+						}
+						strs := a.pathsTo(mn, src, before.Lo)
+						if v, w := a.replayMin(to, strs); v >= 1 {
+							res.Count("refined-by-replay", 1)
+							_ = w
+							continue // the machine that receives the bytes consumes at least one of them
+						} else {
+							note = fmt.Sprintf("; %s can answer the %d replayed byte(s) with an empty step (%s)", to, before.Lo, w)
+						}
+					}
+					steps = append(steps, zeroStep{mn, to, key, fmt.Sprintf("length %s, path [%s]%s", ef, strings.Join(o.Conds, " && "), note), a.M.Prog.Pos(a.M.Blocks[l].Pos)})
 				}
 			}
 		}
 	}
-	// cycles among zero steps: strongly connected components
-	adj := map[string]map[string][]zeroStep{}
+	// cycles among zero steps
+	adj := map[string]map[string]bool{}
 	for _, s := range steps {
 		if adj[s.from] == nil {
-			adj[s.from] = map[string][]zeroStep{}
+			adj[s.from] = map[string]bool{}
 		}
-		adj[s.from][s.to] = append(adj[s.from][s.to], s)
+		adj[s.from][s.to] = true
 	}
 	reach := func(from string) map[string]bool {
 		seen := map[string]bool{}
@@ -712,7 +771,6 @@ func (a *Analysis) Progress() *report.RuleResult {
 	res.Count("zero-steps", len(steps))
 	reported := map[string]bool{}
 	for _, s := range steps {
-		// the step lies on a cycle iff its source is reachable from its target
 		if s.to != s.from && !reach(s.to)[s.from] {
 			continue
 		}
@@ -734,5 +792,72 @@ func (a *Analysis) Progress() *report.RuleResult {
 	return res
 }
 
+// markBlock: the block of machine mn that sets lex.act = id (and te) when alternative id has matched.
+func (a *Analysis) markBlock(mn, id string) string {
+	found := ""
+	for _, l := range a.Flows[mn].Reach {
+		if !strings.HasPrefix(l, "tr") {
+			continue
+		}
+		for _, o := range a.Outcomes(l) {
+			if e := o.Has("act"); e != nil && e.ID == id {
+				if found != "" && found != l {
+					return "" // several: not handled
+				}
+				found = l
+			}
+		}
+	}
+	return found
+}
+
+// ungot: bytes given back by the outcome's unget events (constant ones).
+func ungot(o *Outcome) int {
+	n := 0
+	for _, e := range o.Events {
+		switch e.Kind {
+		case "unget":
+			if v, err := strconv.Atoi(e.ID); err == nil {
+				n += v
+			}
+		case "ungetstr":
+			n += len(e.ID)
+		}
+	}
+	return n
+}
+
 // zero-length steps that cannot repeat, each confirmed by reading the rule
 var progressReviewed = map[string]string{}
+
+// TriviaSiblings: a machine that skips whitespace as free-floating also skips
+// comments; otherwise replacing a blank by a comment changes the token stream.
+func (a *Analysis) TriviaSiblings() *report.RuleResult {
+	res := report.NewResult("trivia-siblings")
+	for _, mn := range machineNames(a) {
+		kinds := map[string]bool{}
+		pos := ""
+		for _, l := range a.actionBlocks(mn) {
+			for _, o := range a.Outcomes(l) {
+				for _, e := range o.Events {
+					if e.Kind == "ff" {
+						kinds[strings.TrimPrefix(e.ID, "token.")] = true
+						if pos == "" {
+							pos = a.M.Prog.Pos(a.M.Blocks[l].Pos)
+						}
+					}
+				}
+			}
+		}
+		if !kinds["T_WHITESPACE"] {
+			continue
+		}
+		res.Count("whitespace-skipping-machines", 1)
+		if kinds["T_COMMENT"] {
+			res.OK(mn, pos, mn, "skips whitespace and comments alike")
+		} else {
+			res.Bad(mn, pos, mn, "machine "+mn+" records whitespace as free-floating but has no rule for comments: a comment where a blank is allowed is an unexpected character here")
+		}
+	}
+	return res
+}
